@@ -218,6 +218,8 @@ impl DB {
                     BucketInfo::FreshWithNoDependents => {
                         let bucket = allocate_bucket(&page_id, &mut meta_map, &self.shared.seed)
                             .ok_or(BucketExhaustion)?;
+                        #[cfg(nomt_verif)]
+                        crate::verif::probe("bitbox.bucket_allocated");
                         (true, bucket)
                     }
                     BucketInfo::FreshOrDependent(maybe_bucket) => match maybe_bucket.get() {
@@ -439,11 +441,15 @@ fn recover(
     //   1. the WAL holds data for a sync that never concluded. Safe to discard.
     //   2. the WAL holds data for a sync that fully concluded. (somehow). Safe to discard.
     if wal_reader.sync_seqn() != sync_seqn {
+        #[cfg(nomt_verif)]
+        crate::verif::probe("bitbox.stale_wal_discarded");
         // fsync generously here since it's a one-time operation.
         writeout::truncate_wal(wal_fd, true)?;
         return Ok(());
     }
 
+    #[cfg(nomt_verif)]
+    crate::verif::probe("bitbox.wal_replayed");
     // The indices of pages (in the metabits page space) that were changed and require updates.
     // Note those are not ht page numbers yet and still require additional conversion.
     let mut changed_meta_page_ixs = HashSet::new();
@@ -740,6 +746,8 @@ impl ProbeSequence {
             }
 
             if meta_map.hint_tombstone(self.bucket as usize) {
+                #[cfg(nomt_verif)]
+                crate::verif::probe("bitbox.tombstone_probed");
                 return ProbeResult::Tombstone(self.bucket);
             }
 
